@@ -29,6 +29,8 @@ pub struct GenCfg {
     pub p_empty_message: u32,
     /// restrict to declarations whose responses have a canonical encoding (no floats)
     pub canonical_responses_only: bool,
+    /// declarations (user indices) chosen four times as often as the others
+    pub boost: Vec<usize>,
 }
 
 impl Default for GenCfg {
@@ -41,6 +43,7 @@ impl Default for GenCfg {
             p_trailing_semicolon: 1,
             p_empty_message: 1,
             canonical_responses_only: true,
+            boost: Vec::new(),
         }
     }
 }
@@ -201,6 +204,14 @@ pub fn gen_unit(t: &mut Tape, ix: &Index, ctx: &[String], cfg: &GenCfg) -> Unit 
         let mut targets: Vec<Target> = cands.iter().map(|&i| ix.keys[i].target).collect();
         targets.sort();
         targets.dedup();
+        let boosted: Vec<Target> = targets
+            .iter()
+            .copied()
+            .filter(|tg| matches!(tg, Target::User(i) if cfg.boost.contains(i)))
+            .collect();
+        for _ in 0..3 {
+            targets.extend_from_slice(&boosted);
+        }
         let tg = targets[t.below(targets.len())];
         let of: Vec<usize> = cands.iter().copied().filter(|&i| ix.keys[i].target == tg).collect();
         of[t.below(of.len())]
@@ -355,15 +366,13 @@ pub fn predict(model: &Model, msgs: &[Message], kinds: Option<&[Vec<UnitKind>]>,
     let mut out: Vec<PEv> = Vec::new();
     for (mi, m) in msgs.iter().enumerate() {
         let mut ctx: Vec<String> = Vec::new();
-        let mut barrier: Option<usize> = None;
+        let mut barriers: Vec<usize> = Vec::new();
         for (ui, u) in m.units.iter().enumerate() {
             let kind = kinds.and_then(|k| k.get(mi)).and_then(|k| k.get(ui)).cloned().unwrap_or(UnitKind::Normal);
             if let UnitKind::Syntax = kind {
                 out.push(PEv::Error(ErrSpec::Any));
-                if barrier.is_none() {
-                    barrier = Some(out.len());
-                    out.push(PEv::Barrier { skip_to: 0 });
-                }
+                barriers.push(out.len());
+                out.push(PEv::Barrier { skip_to: 0 });
                 // the path after a syntactically broken unit is unspecified: stop predicting this
                 // message (the generators put nothing path-dependent behind such a unit)
                 continue;
@@ -445,14 +454,15 @@ pub fn predict(model: &Model, msgs: &[Message], kinds: Option<&[Vec<UnitKind>]>,
             if let Some(c) = r.new_ctx {
                 ctx = c;
             }
-            if faulty && barrier.is_none() && ui + 1 < m.units.len() {
-                barrier = Some(out.len());
+            if faulty && ui + 1 < m.units.len() {
+                // after every faulty unit the rest of the message may be executed or dropped
+                barriers.push(out.len());
                 out.push(PEv::Barrier { skip_to: 0 });
             }
         }
         let end = out.len();
         out.push(PEv::EndOfMessage);
-        if let Some(b) = barrier {
+        for b in barriers {
             out[b] = PEv::Barrier { skip_to: end };
         }
     }
